@@ -114,6 +114,8 @@ def _panel(runs, side):
         p.kind = "plus"
     elif "zero" in cl:
         p.kind = "zero"
+    elif "ws_error" in cl:
+        p.kind = "plus"         # an added line consisting of whitespace only
     elif p.text.strip(" ") == "":
         p.kind = "empty"
     else:
